@@ -4,6 +4,7 @@ package checks
 
 import (
 	"fmt"
+	"os"
 	"testing"
 
 	"pgregory.net/rapid"
@@ -78,49 +79,68 @@ func c07Probe(t tb, p pendingRun) {
 func TestC07(t *testing.T) {
 	col := ev.Get()
 	q := &runQueue{check: c07Probe}
-	eval := func(t tb, gc graphCase) {
-		c := gc.G.Config()
+	evalCfg := func(t tb, cc cfgCase, caseHash uint64, tagEdges bool, sample any) {
+		c := cc.C
 		if sccGuard(c, 7) {
 			col.Exclude("scc-larger-than-7")
 			return
 		}
-		cc := cfgCase{C: c, Style: gc.Style, Flags: gc.Flags, Labels: []string{gc.Tag}}
 		a, o := verdictEval(t, cc)
 		if o == nil {
 			return
 		}
 		defer o.cleanup()
-		tagEdges := len(gc.G.SvcTags)+len(gc.G.SvcTagged)+len(gc.G.DecTag) > 0
-		col.Case(ev.Hash(gc), a.Cyclic || tagEdges)
-		col.Label(gc.Tag)
+		col.Case(caseHash, a.Cyclic || tagEdges)
+		for _, l := range cc.Labels {
+			col.Label(l)
+		}
 		if a.Cyclic {
 			col.Label("cyclic")
 			on, largest := a.Graph.OnCycle()
 			col.Label(fmt.Sprintf("largest-scc:%d", largest))
-			col.Sample("cyclic", 3, map[string]any{"graph": gc.G, "on_cycle": len(on), "reported": o.Report.Errors})
+			col.Sample("cyclic", 3, map[string]any{"graph": sample, "on_cycle": len(on), "reported": o.Report.Errors})
 		} else {
 			col.Label("acyclic")
 			if tagEdges {
 				col.Label("acyclic-with-tag-or-decorator-edges")
 			}
-			col.Sample("acyclic", 2, map[string]any{"graph": gc.G})
+			col.Sample("acyclic", 2, map[string]any{"graph": sample})
 		}
 		if o.Res.Exit == 0 && o.Exists {
 			q.add(cc, o.Out, scriptAll(c))
 		}
 	}
-	var rc graphCase
-	if replayPayload(t, &rc) {
-		eval(t, rc)
+	eval := func(t tb, gc graphCase) {
+		tagEdges := len(gc.G.SvcTags)+len(gc.G.SvcTagged)+len(gc.G.DecTag) > 0
+		evalCfg(t, cfgCase{C: gc.G.Config(), Style: gc.Style, Flags: gc.Flags, Labels: []string{gc.Tag}}, ev.Hash(gc), tagEdges, gc.G)
+	}
+	// violations are stored as the configuration that failed (cfgCase); older hand-written cases are graph specs
+	stored := func(path string) {
+		var cc cfgCase
+		loadRegress(t, path, &cc)
+		if len(cc.C.Services)+len(cc.C.Params)+len(cc.C.Decorators) > 0 {
+			tagEdges := len(cc.C.Decorators) > 0
+			for _, sv := range cc.C.Services {
+				tagEdges = tagEdges || len(sv.Tags) > 0
+			}
+			evalCfg(t, cc, ev.Hash(cc), tagEdges, cc.C)
+			return
+		}
+		var gc graphCase
+		loadRegress(t, path, &gc)
+		eval(t, gc)
+	}
+	if p := os.Getenv("VERIF_REPLAY"); p != "" {
+		stored(p)
 		q.flush(t, 1)
+		col.Complete()
 		return
 	}
 	for _, f := range regressFiles("C07") {
-		var c graphCase
-		loadRegress(t, f, &c)
-		eval(t, c)
+		stored(f)
 		col.Label("regress")
 	}
+	q.flush(t, 1)
 
 	idx := 0
 	// (a1) all 512 reference structures on 3 parameters
@@ -155,15 +175,21 @@ func TestC07(t *testing.T) {
 		if !ev.Mine(idx) {
 			continue
 		}
-		g := gen.GraphSpec{NSvc: 3}
-		for b := 0; b < 9; b++ {
-			if m&(1<<b) != 0 {
-				g.SvcRefs = append(g.SvcRefs, [3]int{b / 3, b % 3, (b + m) % 3})
+		for place := 0; place < 3; place++ {
+			g := gen.GraphSpec{NSvc: 3, Place: place, Decoys: place == 2}
+			for b := 0; b < 9; b++ {
+				if m&(1<<b) != 0 {
+					kind := (b + m) % 3
+					if place > 0 && m%2 == 0 {
+						kind = 2 // all references of a service in one call
+					}
+					g.SvcRefs = append(g.SvcRefs, [3]int{b / 3, b % 3, kind})
+				}
 			}
+			eval(t, graphCase{G: g, Tag: fmt.Sprintf("exh:3-services:place=%d", place)})
 		}
-		eval(t, graphCase{G: g, Tag: "exh:3-services"})
 	}
-	col.Exhaustive("all 256 structures of at most 4 @service edges on 3 services")
+	col.Exhaustive("all 256 structures of at most 4 @service edges on 3 services x 3 argument layouts (one reference per argument list / packed into one list with a trailing literal / with a leading literal and look-alike parameter and tag names)")
 	q.flush(t, 1)
 
 	// (a3) 2 services x 2 tags x 1..2 decorators over {@service, carries tag, !tagged, decorator-on-tag, decorator -> service/tag}
@@ -178,7 +204,7 @@ func TestC07(t *testing.T) {
 		if !ev.Mine(idx) {
 			continue
 		}
-		g := gen.GraphSpec{NSvc: 2, NTag: 2, DecTag: []int{0}}
+		g := gen.GraphSpec{NSvc: 2, NTag: 2, DecTag: []int{0}, Place: (m / 3) % 3}
 		bit := func(b int) bool { return m&(1<<b) != 0 }
 		for b := 0; b < 4; b++ {
 			if bit(b) {
